@@ -132,5 +132,16 @@ pub(crate) fn match_column_inputs(
     avalanches
 }
 
+#[cfg(alpha_g_verif)]
+pub(crate) fn verif_pad_hits_at_t(
+    pad_column_inputs: &[Vec<f64>; TPC_PAD_ROWS],
+    t: usize,
+) -> Vec<(f64, f64)> {
+    pad_hits_at_t(pad_column_inputs, t)
+        .into_iter()
+        .map(|hit| (hit.z.get::<meter>(), hit.amplitude))
+        .collect()
+}
+
 #[cfg(test)]
 mod tests;
